@@ -203,7 +203,8 @@ def c10(tier):
     run = Run("C10", tier)
     n = 900 if tier == "quick" else 200000
     run.rule = ("triples (A, B, A|B) with A, B legend-free, tag-free, quote-free diagrams (random grids over the "
-                "full vocabulary, shapes, bundled paragraphs) placed side by side or stacked with gaps 1..3; TLC "
+                "full vocabulary, shapes, bundled paragraphs) placed side by side (tops aligned, or one of them lowered) or "
+                "stacked with gaps 1..3; TLC "
                 "checks the juxtaposition of the inputs and then UnionDoc; non-trivial = juxtaposed document non-empty")
     r = common.rng("C10")
     if tier == "quick":
@@ -242,8 +243,21 @@ def c10(tier):
 
     def dcols(s_):
         return sum(2 if common_wide(c) else 1 for c in s_)
+    # small left neighbours (a word, a stroke) for shapes that are matched as a whole (circles, arcs, round boxes)
+    for i in range(max(30, n // 20)):
+        corpus += [r.choice(["ab", "a-", "--", "|", "x1 -", "+", "o-", "Hello"]),
+                   r.choice(["\n".join(cat[r.randrange(22)]), gen.box(r.randint(1, 4), r.randint(1, 3), "round"),
+                             " .-\n(\n `-", "  /\n /\n+", ".-.\n| |\n'-'"])]
     for i in range(0, len(corpus) - 1, 2):
         a, b = corpus[i], corpus[i + 1]
+        # vertical placement: both at the top (half of the pairs), or one of them lowered: by a few rows, so that
+        # its first row is the other's last row, or so that the bottoms align
+        if i % 4 >= 2:
+            ha, hb = len(a.split("\n")), len(b.split("\n"))
+            if r.random() < 0.5:
+                a = "\n" * r.choice([r.randint(1, 4), max(hb - 1, 1), max(hb - ha, 1)]) + a
+            else:
+                b = "\n" * r.choice([r.randint(1, 4), max(ha - 1, 1), max(ha - hb, 1)]) + b
         ra, rb = a.split("\n"), b.split("\n")
         gap = r.choice([1, 1, 2, 3])
         if r.random() < 0.6:
@@ -404,6 +418,46 @@ def replay_full_docs(run, res, props_for, tag):
     return len(behf)
 
 
+FULL_EXTRA = set('"{}#,;:=%') | set(gen.WIDE)
+
+
+def full_in_domain(t):
+    """texts the whole-conversion model (Stages!FullDoc) describes: the modelled drawing vocabulary, labels,
+    wide characters of the stable blocks, quotes, braces and legend punctuation; no tabs or other blanks"""
+    from . import stages
+    if not t.strip() or not stages.in_domain("".join(ch for ch in t if ch not in FULL_EXTRA and ch != "\r")):
+        return False
+    # the one deliberate omission of the glyph model: the diamond '#' draws for a diagonal neighbour
+    rows = t.split("\n")
+    for y, row in enumerate(rows):
+        for x, ch in enumerate(row):
+            if ch == "#":
+                for dy in (-1, 1):
+                    if 0 <= y + dy < len(rows):
+                        for dx in (-1, 1):
+                            if 0 <= x + dx < len(rows[y + dy]) and rows[y + dy][x + dx] != " ":
+                                return False
+    return True
+
+
+def full_conformance(run, texts, tag, limit):
+    """the model run forwards on inputs chosen by the code side: Stages!FullDoc of every in-domain text (TLC,
+    MC_FullOf) against the real conversion of the same text; differences are drift"""
+    texts = [t for t in gen.dedup(texts) if full_in_domain(t)][:limit]
+    if not texts:
+        return 0
+    d = common.rundir()
+    path = os.path.join(d, "texts-%s.ndjson" % tag)
+    with open(path, "w") as f:
+        for t in texts:
+            f.write(_json.dumps({"t": [ord(c) for c in t]}) + "\n")
+    cfg = write_cfg("MC_FullOf_" + tag, {}, ["LegendCut", "Emit"], init="Init")
+    res = run.model("MC_FullOf", cfg, timeout=7200, env={"TEXTS": path})
+    n = replay_full_docs(run, res, lambda t: [], tag)
+    run.notes["corpus_documents_through_the_model"] = run.notes.get("corpus_documents_through_the_model", 0) + n
+    return n
+
+
 def c12(tier):
     run = Run("C12", tier)
     n = 1200 if tier == "quick" else 80000
@@ -462,7 +516,8 @@ def c12(tier):
         w = r.randint(1, 12)
         kind = i % 6
         if kind == 0:
-            extra.append(gen.random_grid(r, w, r.randint(1, 4), "ab-|+ ", 0.5) + r.choice(gen.WIDE))
+            # (the wide blocks below U+2E80 and beyond the BMP get extra weight: width tables are often cut there)
+            extra.append(gen.random_grid(r, w, r.randint(1, 4), "ab-|+ ", 0.5) + r.choice(gen.WIDE + "\u1100\u1105\u1112\U00020000\uff21" * 2))
         elif kind == 1:
             extra.append(" " * r.randint(0, 9) + '"' + gen.random_grid(r, w, 1, "ab-|+<>& ", 0.8) + '"')
         elif kind == 2:
@@ -486,6 +541,9 @@ def c12(tier):
                       {"input": c["input"], "entry": c.get("entry", "to_svg"), "settings": c.get("settings")})
     run.samples += [{"input": extra[1]}, {"input": extra[2]}]
     run.validate()
+    # the model forwards on this corpus (and on the paragraphs of the bundled examples): Stages!FullDoc of each
+    # text the model describes against the real conversion
+    full_conformance(run, gen.bundled_chunks(12) + texts, "C12G", 250 if tier == "quick" else 6000)
     run.assumptions = std_assumptions() + ["'occupied' is read as: any non-whitespace character of the drawing part, "
                                            "quotes and quoted content included"]
     return run.finish()
@@ -575,7 +633,8 @@ def c04(tier):
     run.rule = ("TLC enumerates all rows of length <= 4 (quick) / 5 (thorough) over {a, é, 一, space, -, |} with a "
                 "second row of dashes (one span) on the text-merge model and checks RefTextRuns as invariant; every "
                 "behaviour is replayed; plus random multi-row inputs mixing ASCII, Latin-1, Cyrillic, CJK labels "
-                "with drawing characters (no quotes/braces). Trace predicate C04: every text element shows the input "
+                "with drawing characters (no quotes/braces), and words dropped into pictures of large shapes (between "
+                "parallel diagonals, in boxes under a long diagonal ...). Trace predicate C04: every text element shows the input "
                 "characters at consecutive display columns from its anchor cell, texts are disjoint, every "
                 "non-drawing character is covered. non-trivial = at least one non-drawing character")
     r = common.rng("C04")
@@ -590,6 +649,12 @@ def c04(tier):
         w, h = r.randint(1, 14), r.randint(1, 6)
         dens = r.choice([0.3, 0.6, 0.9])
         texts.append(gen.random_grid(r, w, h, alpha + "-|+.'/\\*_<>", dens))
+    # words dropped into pictures of a few large shapes: inside, between and beside long diagonals, parallel
+    # diagonals, boxes and nested boxes (a word can lie in the bounding boxes of several separate shapes)
+    for i in range(n // 2):
+        words = ["".join(r.choice(gen.LABELS[:10] + (gen.LATIN + gen.CYRIL if i % 3 == 0 else "")) for _ in range(r.randint(1, 4)))
+                 for _ in range(r.randint(2, 6))]
+        texts.append(gen.scene(r, words))
     observe_events(run, gen.dedup(texts), ["C04"], "random-labels")
     # rows that also contain quoted strings (content without quote, backslash, braces)
     qtexts = []
@@ -647,7 +712,12 @@ def c15(tier):
         for _ in range(h):
             a, b = "", ""
             for _seg in range(r.randint(0, 3)):
-                pre = gen.random_grid(r, r.randint(0, 6), 1, gen.ASCII_DRAW.replace("\\", "") + "ab" + ("─│┌é一д" if i % 2 else ""), r.choice([0.3, 0.8]))
+                # every third group may have a backslash (a drawing character) anywhere outside the quotes,
+                # also directly before an opening quote
+                pre = gen.random_grid(r, r.randint(0, 6), 1, (gen.ASCII_DRAW if i % 3 == 0 else gen.ASCII_DRAW.replace("\\", ""))
+                                      + "ab" + ("─│┌é一д" if i % 2 else ""), r.choice([0.3, 0.8]))
+                if i % 6 == 0 and r.random() < 0.5:
+                    pre += "\\"
                 content = "".join(r.choice(content_alpha) for _ in range(r.randint(0, 8))).replace("\\", "/")
                 wcells = sum(2 if c in gen.WIDE else 1 for c in content)
                 a += pre + '"' + content + '"'
@@ -1075,8 +1145,9 @@ def c14(tier):
     run.rule = ("arrow family: 8 directions x glyph variants (> < ^ v V and triangle glyphs) x lengths 1..%d x seeded "
                 "offsets: ArrowOracle (one filled 3-vertex polygon, tip on the line's axis beyond its end and inside "
                 "the glyph's cell, base straddling the axis); bullet family: * o O at the start, end or middle of a "
-                "run of dashes: BulletOracle (marker line of the documented kind ending at the bullet cell's centre, "
-                "bullet not shown as text); corner family: rounded outlines (. ' and , ` styles) of sizes up to %s with "
+                "horizontal run of - ~ U+2500 U+2504 or a vertical run of | : ! U+2502: BulletOracle (marker line of the "
+                "documented kind ending at the bullet cell's centre, bullet not shown as text, dashed exactly when the "
+                "run's character is); corner family: rounded outlines (. ' and , ` styles) of sizes up to %s with "
                 "a stub: CornerOracle (four quarter arcs, endpoints are line ends, centre on the inner side). TLC "
                 "checks the input is the claimed drawing and the oracle on the recorded document; the arrow/bullet/"
                 "corner geometry is also an invariant of the glyph model for the directions it covers. "
@@ -1094,7 +1165,8 @@ def c14(tier):
             if len(run.drift_samples) < 5:
                 run.drift_samples.append({"input": t, "model": b["out"]})
         run.add_event({"props": ["C14arrow"], "rows": o["rows"], "doc": o["doc"], "arrow": b["arrow"]}, {"input": t, "arrow": b["arrow"]})
-    cfgb = simple_cfg("MC_C14b", {"MaxLen": 4 if tier == "quick" else 10, "MaxK": 1}, ["ModelC14b", "Emit"])
+    cfgb = simple_cfg("MC_C14b", {"MaxLen": 4 if tier == "quick" else 10, "MaxK": 1, "HBodies": tla_set([45, 126, 9472, 9476]),
+                                  "VBodies": tla_set([124, 58, 33, 9474])}, ["ModelC14b", "Emit"])
     resb = run.model("MC_Bullet", cfgb)
     behb = common.tla_json_strings(resb["lines"], "REPLAY")
     bt = [rows_text(b["rows"]) for b in behb]
@@ -1121,12 +1193,20 @@ def c14(tier):
             for L in lens:
                 if tier == "quick" and L > 6 and L % 3:
                     continue
-                k, n = r.randint(0, 5), r.randint(0, 3)
-                row = " " * k + {"start": ch + "-" * L, "end": "-" * L + ch, "mid": "-" * L + ch + "-" * L}[pos]
-                cases.append(("\n" * n + row, "C14bullet", "bullet", {"ch": ord(ch), "pos": pos, "len": L, "k": k, "n": n, "dir": "h"}))
-                col = {"start": ch + "|" * L, "end": "|" * L + ch, "mid": "|" * L + ch + "|" * L}[pos]
-                cases.append(("\n" * n + "\n".join(" " * k + c_ for c_ in col), "C14bullet", "bullet",
-                              {"ch": ord(ch), "pos": pos, "len": L, "k": k, "n": n, "dir": "v"}))
+                # the run is made of any horizontal / vertical line character, solid or dashed (a lone ':' or '!'
+                # is text by the rules, so dashed vertical runs start at length 2)
+                for hb in "-~─┄":
+                    k, n = r.randint(0, 5), r.randint(0, 3)
+                    row = " " * k + {"start": ch + hb * L, "end": hb * L + ch, "mid": hb * L + ch + hb * L}[pos]
+                    cases.append(("\n" * n + row, "C14bullet", "bullet",
+                                  {"ch": ord(ch), "pos": pos, "len": L, "k": k, "n": n, "dir": "h", "body": ord(hb)}))
+                for vb in "|:!│":
+                    if vb in ":!" and L < 2:
+                        continue
+                    k, n = r.randint(0, 5), r.randint(0, 3)
+                    col = {"start": ch + vb * L, "end": vb * L + ch, "mid": vb * L + ch + vb * L}[pos]
+                    cases.append(("\n" * n + "\n".join(" " * k + c_ for c_ in col), "C14bullet", "bullet",
+                                  {"ch": ord(ch), "pos": pos, "len": L, "k": k, "n": n, "dir": "v", "body": ord(vb)}))
     ws = range(1, 13) if tier == "quick" else range(1, 31)
     hs = range(1, 7) if tier == "quick" else range(1, 16)
     for w in ws:
@@ -1319,6 +1399,8 @@ def c16(tier):
         run.add_event(ev, {"input": t, key: info})
     run.samples += [{"input": cases[1][0]}, {"input": cases[n + 1][0], "tags": cases[n + 1][3]}]
     run.validate(shard=800)
+    # the model forwards on the legend and tag families themselves
+    full_conformance(run, [c[0] for c in cases], "C16G", 250 if tier == "quick" else 6000)
     run.assumptions = std_assumptions() + ["'lying inside' is read as: the tag's cells lie inside the shape's bounding box"]
     return run.finish()
 
